@@ -52,7 +52,7 @@ def gen_case(rng, ltype, sharp=True):
     if ltype in lc.KIN_TYPES:
         data["sigma_sys_error_include"] = rng.random() < 0.5
     return dict(ltype=ltype, cfg=cfg, hyper=h, data=data, cosmo=dict(scale=rng.uniform(0.7, 1.4), a=rng.uniform(1200, 1800), b=rng.uniform(0.4, 0.8)),
-                stream="sharp" if sharp else "scatter")
+                stream="sharp" if sharp else "scatter", like_first=bool(sharp and rng.random() < 0.5))
 
 
 def gen_scatter_case(rng, k):
@@ -111,11 +111,22 @@ def lens_lambda_kappa(case):
 def evaluate(case, seed=0):
     lens = lc.make_lens(case["ltype"], case["cfg"], case["data"])
     cosmo = lc.FakeCosmo(**case["cosmo"])
-    h = case["hyper"]
+    # the caller's own dictionaries, used for the likelihood AND for the reports (the oracle keeps the pristine ones)
+    h = copy.deepcopy(case["hyper"])
     rec = lc.Recorder(lens)
-    np.random.seed(seed)
     out = {}
     draws = []
+    if case.get("like_first"):
+        # the order GoodnessOfFit.plot_kin_fit uses: the likelihood is evaluated, then the reports are asked for with the
+        # same hyper-parameter dictionaries
+        try:
+            np.random.seed(seed + 1)
+            with np.errstate(all="ignore"):
+                lens.lens_log_likelihood(cosmo, kwargs_lens=h["kwargs_lens"], kwargs_kin=h["kwargs_kin"],
+                                         kwargs_source=h["kwargs_source"], kwargs_los=h["kwargs_los"])
+        except Exception:  # noqa  – the likelihood's own failures belong to C02 / C06
+            pass
+    np.random.seed(seed)
     orig_pred = lens._lens_type.sigma_v_prediction if hasattr(lens._lens_type, "sigma_v_prediction") else None
     if orig_pred is not None:
         def pred(ddt, dd, kin_scaling=1):
